@@ -290,7 +290,7 @@ NtPlace(tok, q) == CASE q = 0 -> tok
 \* rotation; each token as the whole text and in one further placement by rotation.
 NtFormsOf(g) == IF ~Quick THEN NtGoodForms \cup NtBadForms
                 ELSE {0, 8 + (NtRot(g) % 8)} \cup (IF NtBoundary(g) THEN NtGoodForms ELSE {1 + (NtRot(g) % 7)})
-NtSignsOf(g, f) == IF ~Quick \/ f = 0 THEN {0, 1} ELSE {(NtRot(g) + f) % 2}
+NtSignsOf(g, f) == IF ~Quick \/ f = 0 THEN {0, 1} ELSE {(g[2] + f) % 2}
 NtPlacesOf(g, f, sg) == IF ~Quick THEN 0..3 ELSE {0, 1 + ((NtRot(g) + f + sg) % 3)}
 NtRunToks(g) == LET D == NtRun(g) IN {<<NtSigned(NtForm(D, f), sg), f, sg>> : f \in NtFormsOf(g), sg \in {0, 1}}
 \* the mantissa x exponent grid
@@ -321,15 +321,15 @@ NvPlacements(w) ==
              \cup (IF ~Quick \/ w[4] % 2 = 1 THEN {VObj(<<[n |-> KA, v |-> VNumW(w)]>>)} ELSE {})
 NvCases(g) == UNION {LET r == JParse(x[1], {}) IN IF r.o = "value" THEN NvPlacements(r.v.w) ELSE {} : x \in NtToks(g)}
 \* the quick sub-grid contains every class of every dimension (a dropped class fails the specification run, not silently)
-NtGridLaw ==
-  /\ \A mi \in 1..Len(NtMants) : NtMantExps(mi) # {}
-  /\ \A xi \in 1..Len(NtExps) : \E mi \in 1..Len(NtMants) : xi \in NtMantExps(mi)
-  /\ \A f \in NtGoodForms \cup NtBadForms : \A sg \in {0, 1} : \A q \in 0..3 :
-       \E g \in NtRunSpecs : f \in NtFormsOf(g) /\ sg \in NtSignsOf(g, f) /\ q \in NtPlacesOf(g, f, sg)
-  /\ \A g \in NtRunSpecs : 0 \in NtFormsOf(g) /\ NtSignsOf(g, 0) = {0, 1} /\ NtFormsOf(g) \cap NtBadForms # {}
-                             /\ NtFormsOf(g) \cap (NtGoodForms \ {0}) # {}
-  /\ \A g \in NtRunSpecs : NtBoundary(g) => NtGoodForms \subseteq NtFormsOf(g)
-  /\ \A m \in Mutants : \E bi \in 1..Len(MutBases) : m \in MutSetFor(bi)
+NtLawMant == \A mi \in 1..Len(NtMants) : NtMantExps(mi) # {}
+NtLawExp == \A xi \in 1..Len(NtExps) : \E mi \in 1..Len(NtMants) : xi \in NtMantExps(mi)
+NtLawForm == \A f \in NtGoodForms \cup NtBadForms : \A sg \in {0, 1} : \A q \in 0..3 :
+               \E g \in NtRunSpecs : f \in NtFormsOf(g) /\ sg \in NtSignsOf(g, f) /\ q \in NtPlacesOf(g, f, sg)
+NtLawRun == \A g \in NtRunSpecs : /\ 0 \in NtFormsOf(g) /\ NtSignsOf(g, 0) = {0, 1}
+                                   /\ NtFormsOf(g) \cap NtBadForms # {} /\ NtFormsOf(g) \cap (NtGoodForms \ {0}) # {}
+                                   /\ (NtBoundary(g) => NtGoodForms \subseteq NtFormsOf(g))
+NtLawMut == \A m \in Mutants : \E bi \in 1..Len(MutBases) : m \in MutSetFor(bi)
+NtGridLaw == NtLawMant /\ NtLawExp /\ NtLawForm /\ NtLawRun /\ NtLawMut
 
 \* ---------------- Enum: a tree of states, one printed case per leaf state ---------------------------------
 VARIABLES ph, cur, rec_i          \* rec_i: never a name that library operators bind
